@@ -182,7 +182,7 @@ CHECKS["C18"] = {
             "delayed messages ending in error / EOF / silence, Close or cancel at a generated instant; oracles: both calls return within "
             "the back-off maximum of virtual time (a connection attempt ends with its context, not with the query timeout), retries "
             "continue while not closed, callback discipline, per stream Connected first and the stream's notifications in sent order, at "
-            "most one message after Close. Non-trivial: more than two recorded events.",
+            "most one message after Close. Non-trivial: more than two recorded events. The subscription context may also end through a deadline carried by the caller's context (both harnesses).",
     "real": ["client (BaseClient, CacheClient, ReconnectClient, getFirst/NewImpl registry; instrumented)", "client/gnmi (real transport, gclienth)", "ctree", "cenkalti/backoff"],
     "stub": ["client.Impl (scripted by the harness through client.RegisterTest; clienth)", "grpc-go (simgrpc; gclienth)", "gNMI server (scripted; gclienth)"],
     "assumptions": ["backoff jitter disabled (RetryRandomization = 0)", "a transport honours the subscription context when it blocks, except in the explicit ignore-context variant"],
@@ -199,7 +199,7 @@ CHECKS["C20"] = {
             "scheduler. Oracles on what was handed to Send: reproducibility (the two sequences are identical), non-decreasing timestamps, "
             "repeat counts, value ranges and delta steps, timestamp steps, sync after the first emission of every value, target stamping, "
             "virtual inter-message gaps equal timestamp gaps with delays on. POLL runs may replace the configuration (SetConfig) before the "
-            "first poll trigger; later passes are judged against the new one. Non-trivial: >= 2 messages. A fifth of the runs use fixed-responses configurations (played verbatim, each response once, then the sync marker; two engines built from one configuration object, as the fake agent does per Subscribe call).",
+            "first poll trigger; later passes are judged against the new one. Non-trivial: >= 2 messages. A fifth of the runs use fixed-responses configurations (played verbatim, each response once, then the sync marker; two engines built from one configuration object, as the fake agent does per Subscribe call). POLL runs may replace the configuration (same shape, other seed and numbers) while the engine rebuilds its generator: each pass must be the old or the new configuration's, whole (lock releases of the fake are scheduling points of their own in this harness). A tenth of the runs drive the generator at queue level with a value added while it is consumed.",
     "real": ["testing/fake/gnmi (Client engine), testing/fake/queue (instrumented)", "generated gNMI stubs", "protobuf runtime"],
     "stub": ["gRPC transport (simgrpc stream)"],
     "assumptions": ["numeric ranges far below 2^62 (the generator's Int63n(max-min+1) overflows beyond; an arithmetic limit of the test fake)",
@@ -220,7 +220,7 @@ CHECKS["C01"] = {
             "horizon the client view must equal the reference model's replay of the target's last stream as the collector files it (target "
             "name forced, empty origin promoted to openconfig); then cli.QueryDisplay ONCE in single / proto / group display, and the "
             "shipped gnmi_cli Subscribe branch invoked with query flags, inline -proto and -proto_file must print the same leaves. "
-            "Non-trivial: every run. Also: the same subscription through the CLI's POLL (count 2) and STREAM (bounded duration) modes in group display; a partial subscription (one keyed subtree of the target with its origin) handed to the shipped gnmi_cli in four equivalent forms (query flags with bracketed keys, inline proto with the origin in the path, proto file with the origin in the prefix, inline proto with the origin as first element); in a fifth of the runs a scripted target holds a long list of new leaves back until the client is about to subscribe and then sends it back to back, so that the initial walk and the stream overlap.",
+            "Non-trivial: every run. Also: the same subscription through the CLI's POLL (count 2) and STREAM (bounded duration) modes in group display; a partial subscription (one keyed subtree of the target with its origin) handed to the shipped gnmi_cli in four equivalent forms (query flags with bracketed keys, inline proto with the origin in the path, proto file with the origin in the prefix, inline proto with the origin as first element); in a fifth of the runs a scripted target holds a long list of new leaves back until the client is about to subscribe and then sends it back to back, so that the initial walk and the stream overlap. In 30% of the runs the targets' clocks run two hours ahead of the collector's.",
     "real": ["cmd/gnmi_collector and cmd/gnmi_cli (re-packaged main packages: runCollector, executeSubscribe, flag handling)", "manager, connection, cache, subscribe, match, coalesce, ctree, client, client/gnmi, cli, path, value, testing/fake/gnmi (instrumented)", "generated stubs, protobuf, prototext, txtpbfmt, ygot path parsing, backoff, TLS key-pair loading"],
     "stub": ["gRPC transport, dialling and listeners (simgrpc/simnet)", "grpctunnel dialer (constructed, never dialled)", "glog", "OS signals, flag.Parse on a real argv"],
     "assumptions": ["atomic notifications and origins carried in the update path are not generated (the client library flattens atomic containers; the collector files path origins under the promoted prefix origin)",
